@@ -68,7 +68,7 @@ fn unit(c: f64) -> bool {
 // K1 classify ----------------------------------------------------------------------------------
 // @check id=C20 tier=quick cap=600 role=classify_laws
 // @fns projection::classify
-// @bound support, opposition in [0,1]; policy.accept, policy.material any f64 with 0 < material <= accept <= 1; group counts any usize; uncertain list empty or not
+// @bound support, opposition in [0,1]; policy.accept, policy.material any f64 with 0 <= material <= accept <= 1 (the domain Policy::from_settings admits); group counts any usize; uncertain list empty or not
 #[kani::proof]
 #[kani::unwind(4)]
 fn c20_classify_silence_is_insufficient_and_rejection_needs_opposition() {
@@ -78,7 +78,8 @@ fn c20_classify_silence_is_insufficient_and_rejection_needs_opposition() {
     let mut policy = Policy::baseline();
     policy.accept = kani::any();
     policy.material = kani::any();
-    kani::assume(policy.material > 0.0 && policy.material <= policy.accept && policy.accept <= 1.0);
+    // exactly the domain Policy::from_settings admits: both in [0,1] (zero included), material <= accept
+    kani::assume(policy.material >= 0.0 && policy.material <= policy.accept && policy.accept <= 1.0);
     let has_uncertain: bool = kani::any();
     let ledger = Ledger {
         support_groups: kani::any(),
@@ -94,7 +95,7 @@ fn c20_classify_silence_is_insufficient_and_rejection_needs_opposition() {
         assert!(st != BeliefStatus::Insufficient, "once anybody engaged the state is not the open-world unknown");
     }
     if st == BeliefStatus::Rejected {
-        assert!(opposition >= policy.accept && opposition > 0.0, "rejection requires positive opposition at the accept bar");
+        assert!(opposition >= policy.accept && opposition > 0.0 && opposition > support, "rejection requires positive opposition at the accept bar, above the support");
         assert!(support < policy.material, "rejection only when support is immaterial");
     }
     if opposition == 0.0 {
@@ -566,4 +567,132 @@ fn c20_witness_must_fail() {
     let (s, g) = aggregate(&v, false);
     std::mem::forget(v);
     assert!(g == 2 && s < 0.0, "reachability witness");
+}
+
+// eligibility (stages 4-6) -------------------------------------------------------------------------
+// `Context::eligible` takes `&self` but never reads it; the harness passes a reference to an
+// uninitialized allocation that is never read, so the stage logic is decided without a store.
+fn no_context() -> &'static Context<'static> {
+    // a real (leaked, uninitialized) allocation of the right size, so forming the reference is fine;
+    // `eligible` never reads through it
+    let slot: &'static mut std::mem::MaybeUninit<Context<'static>> = Box::leak(Box::new(std::mem::MaybeUninit::uninit()));
+    unsafe { slot.assume_init_ref() }
+}
+fn instant2() -> String {
+    let a: u8 = kani::any();
+    let b: u8 = kani::any();
+    kani::assume(a >= b'0' && a <= b'9' && b >= b'0' && b <= b'9');
+    unsafe { String::from_utf8_unchecked(vec![a, b]) }
+}
+fn opt_instant2() -> String {
+    if kani::any() { String::new() } else { instant2() }
+}
+fn active_row() -> AssertionRow {
+    AssertionRow {
+        _id: 7,
+        state: "active".to_string(),
+        status: "active".to_string(),
+        stance: "support".to_string(),
+        mode: "observed".to_string(),
+        asserted_by_key: "a".to_string(),
+        confidence: 0.5,
+        ..Default::default()
+    }
+}
+fn fmt_empty(_: std::fmt::Arguments<'_>) -> String {
+    String::new()
+}
+
+/// Stage 6 deserializes the mode with serde_json::from_value, which CBMC does not get through
+/// (400 s). For the stage 4/5 harnesses it is replaced by "cannot read the mode" - the row is then
+/// excluded as invalid_schema *after* the lifecycle and temporal stages have let it through, so the
+/// reason still tells which stage decided. Assertions are written so that they also hold natively
+/// (real from_value: the row becomes a candidate instead).
+fn from_value_unreadable<T: serde::de::DeserializeOwned>(_v: Json) -> Result<T, serde_json::Error> {
+    Err(<serde_json::Error as serde::de::Error>::custom("x"))
+}
+
+// @check id=C20 tier=quick cap=900 role=eligible_temporal_window
+// @fns projection::Context::eligible
+// @bound an active, visible assertion with valid_from / valid_until each "" or any two-digit instant; evaluation time any two-digit instant
+// @stubs alloc::fmt::format -> String::new(); serde_json::from_value -> Err (stage 6 cut: the row is then reported invalid_schema instead of becoming a candidate)
+// @assume instants are fixed-width RFC 3339 UTC strings, so lexicographic order is chronological order
+#[kani::proof]
+#[kani::unwind(12)]
+#[kani::stub(alloc::fmt::format, fmt_empty)]
+#[kani::stub(serde_json::from_value, from_value_unreadable)]
+fn c20_eligible_only_inside_the_validity_window() {
+    let mut row = active_row();
+    row.valid_from = opt_instant2();
+    row.valid_until = opt_instant2();
+    let at = instant2();
+    let policy = Policy::baseline();
+    let r = no_context().eligible(&row, &policy, &at);
+    let inside = (row.valid_from.is_empty() || row.valid_from.as_str() <= at.as_str())
+        && (row.valid_until.is_empty() || at.as_str() < row.valid_until.as_str());
+    let excluded_by_window = matches!(&r, Err(e) if e.reason.len() == 18); // "outside_valid_time"
+    assert!(excluded_by_window == !inside, "an assertion is excluded as outside_valid_time iff the evaluation time is outside [valid_from, valid_until)");
+    kani::cover!(excluded_by_window && at.as_str() == row.valid_until.as_str(), "excluded exactly at valid_until (half-open window)");
+    kani::cover!(!excluded_by_window && at.as_str() == row.valid_from.as_str(), "let through exactly at valid_from");
+    kani::cover!(!excluded_by_window && row.valid_until.is_empty() && row.valid_from.is_empty(), "no window means always");
+    std::mem::forget((r, row, at, policy));
+}
+
+// @check id=C20 tier=quick cap=900 role=eligible_lifecycle
+// @fns projection::Context::eligible
+// @bound lifecycle status retracted / superseded / expired / unknown, state archived (one concrete row each)
+// @stubs alloc::fmt::format -> String::new(); serde_json::from_value -> Err (not reached by these rows)
+#[kani::proof]
+#[kani::unwind(12)]
+#[kani::stub(alloc::fmt::format, fmt_empty)]
+#[kani::stub(serde_json::from_value, from_value_unreadable)]
+fn c20_eligible_lifecycle_exclusions() {
+    let policy = Policy::baseline();
+    let ctx = no_context();
+    let check = |status: &str, state: &str, reason_len: usize| {
+        let mut row = active_row();
+        row.status = status.to_string();
+        row.state = state.to_string();
+        let r = ctx.eligible(&row, &policy, "11");
+        let ok = matches!(&r, Err(e) if e.reason.len() == reason_len);
+        std::mem::forget((r, row));
+        ok
+    };
+    assert!(check("retracted", "active", 9), "a retracted assertion is excluded as 'retracted'");
+    assert!(check("superseded", "active", 10), "a superseded assertion is excluded as 'superseded'");
+    assert!(check("expired", "active", 7), "an expired assertion is excluded as 'expired'");
+    assert!(check("zz", "active", 14), "an unknown lifecycle status is excluded as 'invalid_schema'");
+    assert!(check("active", "archived", 11), "an archived element is excluded as 'not_visible'");
+    kani::cover!(check("retracted", "archived", 9), "lifecycle is judged before visibility");
+    std::mem::forget(policy);
+}
+
+// (needs the real serde_json::from_value: did not finish in 400 s; thorough tier, expected not decided)
+// @check id=C20 tier=thorough cap=900 role=eligible_modes
+// @fns projection::Context::eligible, projection::policy::Policy::admits, projection::policy::Policy::mode_exclusion
+// @bound each assertion mode (observed, stated, inferred, imported, predicted, hypothetical, unknown, empty) under the baseline policy, one concrete row each
+// @stubs alloc::fmt::format -> String::new()
+#[kani::proof]
+#[kani::unwind(14)]
+#[kani::stub(alloc::fmt::format, fmt_empty)]
+fn c20_eligible_admits_only_the_policys_modes() {
+    let policy = Policy::baseline();
+    let ctx = no_context();
+    let check = |mode: &str| {
+        let mut row = active_row();
+        row.mode = mode.to_string();
+        let r = ctx.eligible(&row, &policy, "11");
+        let out = match &r {
+            Ok(_) => 0usize,
+            Err(e) => e.reason.len(),
+        };
+        std::mem::forget((r, row));
+        out
+    };
+    assert!(check("observed") == 0 && check("stated") == 0 && check("inferred") == 0 && check("imported") == 0, "factual modes are admitted by the baseline policy");
+    assert!(check("hypothetical") == 26, "a hypothetical contributes nothing and is listed as hypothetical_not_requested");
+    assert!(check("predicted") == 24, "a prediction contributes nothing and is listed as prediction_not_requested");
+    assert!(check("zz") == 14 && check("") == 14, "an unknown or missing mode is excluded as invalid_schema");
+    kani::cover!(check("Observed") == 14, "mode names are case sensitive");
+    std::mem::forget(policy);
 }
